@@ -990,7 +990,7 @@ func (f *fgen) stmt() (terminated bool) {
 	r := f.r
 	d := f.g.cfg.Depth
 	c := f.c
-	k := r.Intn(35)
+	k := r.Intn(37)
 	if f.g.cfg.CallHeavy && r.Chance(1, 3) {
 		k = 9
 	}
@@ -1328,6 +1328,43 @@ func (f *fgen) stmt() (terminated bool) {
 			f.labels = f.labels[:len(f.labels)-1]
 			f.ctrUsed--
 			f.g.use("loop-carried-shuffle")
+		}
+	case k == 35: // loop with block-type parameters (multi-value), back edge carrying the params with an extra operand beneath
+		t1, t2 := f.g.randType(), f.g.randType()
+		l1, l2 := f.localsOf(t1), f.localsOf(t2)
+		if len(l1) > 0 && len(l2) > 0 && f.ctrUsed < len(f.counters) {
+			b1, b2 := l1[r.Intn(len(l1))], l2[r.Intn(len(l2))]
+			ctr := f.counters[f.ctrUsed]
+			f.ctrUsed++
+			ti := f.g.m.AddType([]wenc.ValType{t1, t2}, []wenc.ValType{t1, t2})
+			c.I32Const(int32(2 + r.Intn(3))).LocalSet(ctr)
+			f.expr(t1, d-1)
+			f.expr(t2, d-1)
+			c.BlockT(0x03, ti)
+			f.labels = append(f.labels, label{loop: true, arity: 2})
+			f.fuelCheck()
+			c.LocalSet(b2).LocalSet(b1)
+			extra := r.Bool()
+			if extra {
+				c.I64Const(int64(r.I64()))
+			}
+			if r.Bool() {
+				// modify the carried values between iterations
+				f.expr(t1, 1)
+				c.LocalSet(b1)
+			}
+			c.LocalGet(b1).LocalGet(b2)
+			c.LocalGet(ctr).I32Const(1).Op(0x6b).LocalTee(ctr).BrIf(0)
+			c.LocalSet(b2).LocalSet(b1)
+			if extra {
+				c.Drop()
+			}
+			c.LocalGet(b1).LocalGet(b2)
+			c.End()
+			f.labels = f.labels[:len(f.labels)-1]
+			f.ctrUsed--
+			c.LocalSet(b2).LocalSet(b1)
+			f.g.use("loop-with-params")
 		}
 	default:
 		f.store(d)
